@@ -71,4 +71,15 @@ theorem mix_noninterfering (W : Work L Z R) (fs₀ : FS P L) (isInput : P → Pr
   obtain ⟨c, hc, rfl⟩ := hl
   exact ⟨prog W c.1 c.2, by simp [List.getElem?_map, hc], hol⟩
 
+/-- distinct temp names, from `Nodup` (decidable on concrete lists) -/
+theorem tmp_distinct_of_nodup (calls : List (Routine × Args P)) (h : (calls.map (fun c => c.2.tmp)).Nodup) :
+    ∀ (i j : Nat) (ci cj : Routine × Args P), calls[i]? = some ci → calls[j]? = some cj → i ≠ j → ci.2.tmp ≠ cj.2.tmp := by
+  intro i j ci cj hi hj hij heq
+  obtain ⟨hi1, hi2⟩ := List.getElem?_eq_some_iff.mp hi
+  obtain ⟨hj1, hj2⟩ := List.getElem?_eq_some_iff.mp hj
+  have key := (List.pairwise_iff_getElem.mp h)
+  rcases Nat.lt_or_gt_of_ne hij with hlt | hgt
+  · exact key i j (by simpa using hi1) (by simpa using hj1) hlt (by simpa [hi2, hj2] using heq)
+  · exact key j i (by simpa using hj1) (by simpa using hi1) hgt (by simpa [hi2, hj2] using heq.symm)
+
 end Proofs.Effects
